@@ -101,11 +101,12 @@ func init() {
 				// C19 does not speak about the input buffer, so this is not compared.
 				_ = keep
 			case "write":
-				d := st.Hex("data")
+				d := st.HexMut("data")
 				n, err := h.Write(d)
 				if err != nil || n != len(d) {
 					return &Mismatch{Step: i, Kind: "mismatch", Got: "short write", Exp: "full write"}
 				}
+				Reuse(d) // Write must not retain p
 				// every transition is observed: the tag of what has been absorbed so far (Sum is pure)
 				if st.Has("exp") {
 					if mm := Diff(i, h.Sum(nil), st.Hex("exp")); mm != nil {
